@@ -384,9 +384,9 @@ def rule_challenge(program, ctx):
             ctx.bad(finding_at(P, rid, s, "the connection's challenge is stored in a shared object"))
 
 
-def rule_token(program, ctx):
-    rid = ctx.rule(
-        "C15.token",
+def rule_token(program, ctx, prop=P, rid="C15.token"):
+    ctx.rule(
+        rid,
         "start_client: `auth_token` is bound exactly twice - `{}` before the loop and `await …authenticate(message[1], challenge=challenge)` "
         "in the AUTH branch; no handler or other branch rebinds it, so a failed AUTH leaves the identity unchanged; the AUTH branch is "
         "taken only when authentication is enabled",
@@ -405,22 +405,22 @@ def rule_token(program, ctx):
             other.append(s)
     init = [s for s in init if s not in other]
     for s in other:
-        ctx.bad(finding_at(P, rid, s, "auth_token is re-bound outside a successful authenticate(): a failed or unrelated message changes the connection's identity"))
+        ctx.bad(finding_at(prop, rid, s, "auth_token is re-bound outside a successful authenticate(): a failed or unrelated message changes the connection's identity"))
     if len(init) == 1:
         ctx.ok(rid, init[0], "auth_token = {} once, before the message loop")
     else:
-        ctx.bad(finding_func(P, rid, sc, "auth_token is not initialised exactly once before the loop", text="def start_client(...) :: auth_token init"))
+        ctx.bad(finding_func(prop, rid, sc, "auth_token is not initialised exactly once before the loop", text="def start_client(...) :: auth_token init"))
     for s in auth:
         cond = next((a for a in ancestors(s) if isinstance(a, ast.If)), None)
         txt = ast.unparse(cond.test) if cond is not None else ""
         if "command == 'AUTH'" in txt and "is_enabled" in txt:
             ctx.ok(rid, s, "token replaced only by the result of authenticate() in the enabled AUTH branch")
         else:
-            ctx.bad(finding_at(P, rid, s, "authenticate() result is assigned outside `command == \"AUTH\" and authenticator.is_enabled`"))
+            ctx.bad(finding_at(prop, rid, s, "authenticate() result is assigned outside `command == \"AUTH\" and authenticator.is_enabled`"))
         inner_try = [a for a in ancestors(s) if isinstance(a, ast.Try) and any(True for _ in a.handlers)]
         # an inner handler that swallows AuthenticationError silently would leave the client uninformed - reported under C13/C19
     if not auth:
-        ctx.bad(finding_func(P, rid, sc, "no AUTH branch assigns the result of authenticate() to auth_token", text="def start_client(...) :: AUTH"))
+        ctx.bad(finding_func(prop, rid, sc, "no AUTH branch assigns the result of authenticate() to auth_token", text="def start_client(...) :: AUTH"))
 
 
 def rule_urls_frozen(program, ctx, prop=P, rid="C15.frozen"):
@@ -479,6 +479,51 @@ def rule_urls_frozen(program, ctx, prop=P, rid="C15.frozen"):
         raise AnalysisError("no read of the relay_urls option found")
 
 
+def rule_urlmatch(program, ctx, prop=P, rid="C15.urlmatch"):
+    ctx.rule(
+        rid,
+        "the relay-URL test is exact membership in the configured list: self.valid_urls is bound once, from parse_options (not re-wrapped in a container class with its "
+        "own `__contains__`), and nothing in auth.py uses str.lstrip/rstrip/strip with a multi-character argument as if it removed a prefix/suffix (`url.lstrip('wss://')` "
+        "strips any leading w, s, :, / - `wss://srelay.example` becomes `relay.example`)",
+        floor=1,
+    )
+    m = program.module("nostr_relay.auth")
+    for c in ast.walk(m.tree):
+        if isinstance(c, ast.Call) and isinstance(c.func, ast.Attribute) and c.func.attr in ("lstrip", "rstrip", "strip") and c.args and isinstance(c.args[0], ast.Constant) and isinstance(c.args[0].value, str):
+            arg = c.args[0].value
+            if len(set(arg)) > 1 and len(arg) > 2:
+                ctx.bad(finding_at(prop, rid, c, f"`{ast.unparse(c)[:60]}` removes any of the characters {sorted(set(arg))}, not the prefix/suffix {arg!r}: different host names are normalised to the same string "
+                                   "and an AUTH event addressed to another relay is accepted"))
+    init = program.func("nostr_relay.auth:Authenticator.__init__")
+    binds = [s_ for s_ in ast.walk(m.tree) if isinstance(s_, ast.Assign) and any(isinstance(x, ast.Attribute) and x.attr == "valid_urls" and isinstance(x.ctx, ast.Store) for t in s_.targets for x in ast.walk(t))]
+    good = 0
+    for b in binds:
+        v = b.value
+        if isinstance(v, ast.Call) and call_name(v) == "self.parse_options":
+            good += 1
+            ctx.ok(rid, b, "valid_urls <- parse_options(options)")
+        elif isinstance(v, (ast.Name, ast.Subscript)) and any(isinstance(x, ast.Call) and call_name(x) == "self.parse_options" for s2 in stores_of(func_of_node(b), dotted(v) if isinstance(v, ast.Name) else dotted(v.value)) for x in ast.walk(s2)):
+            good += 1
+            ctx.ok(rid, b, "valid_urls <- parse_options(options)")
+        else:
+            cname = call_name(v) if isinstance(v, ast.Call) else ""
+            ci = program.classes.get(f"nostr_relay.auth:{cname}")
+            if ci is not None and "__contains__" in ci.methods:
+                ctx.bad(finding_at(prop, rid, b, f"valid_urls is re-bound to `{cname}(…)`, a container with its own `__contains__`: membership is no longer string equality with a configured URL"))
+            elif isinstance(v, ast.Call) and cname in ("list", "tuple", "set", "frozenset") and v.args and "valid_urls" in ast.unparse(v.args[0]):
+                good += 1
+                ctx.ok(rid, b, "valid_urls copied into a builtin container")
+            else:
+                ctx.bad(finding_at(prop, rid, b, f"valid_urls is re-bound to `{ast.unparse(v)[:60]}` outside parse_options"))
+    if not good:
+        ctx.bad(finding_func(prop, rid, init, "valid_urls is no longer taken from parse_options", text="def __init__(...) :: valid_urls"))
+
+
+def func_of_node(n):
+    f = getattr(n, "_func", None)
+    return f
+
+
 def run(program, ctx):
     from ..lib import rule_awaited
 
@@ -487,6 +532,7 @@ def run(program, ctx):
     rule_guards(program, ctx)
     rule_urls(program, ctx)
     rule_urls_frozen(program, ctx)
+    rule_urlmatch(program, ctx)
     rule_challenge(program, ctx)
     rule_token(program, ctx)
     ctx.not_decided += [
